@@ -21,9 +21,14 @@ handler over a log; `Consistent`, `CkptOK`, `Quiescent` as defined there.
 The inductive invariant is `Inv` in `Proofs/PipelineInv.lean`; the failure-free replay of a key's log is in
 `Proofs/PipelineReplay.lean`.
 
+**Partial (finding D39, open).** `redeployLive n'` models the code as it is when a deployment's assembly contains a
+node process that is still alive: the channels are *not* discarded. Every property theorem below is proved for
+the runs without such a step (hypothesis `hl`, suffix `_partial`); the full statement is kept in a comment in
+front of it and is **false** for the code as it is: `redeploy_live_counterexample`.
+
 Explicit exclusions of the model: acknowledgements of workers of a *previous* deployment that the coordinator
-would accept are not steps (the trace validation reports them); a failed worker is not forced to stop (the
-theorems hold whether or not it takes further steps); records are identified with `(split, index)`.
+would accept are not steps (the trace validation reports them); a failed worker is not forced to stop
+(the theorems hold whether or not it takes further steps); records are identified with `(split, index)`.
 -/
 namespace Rxn.C01
 open Rxn Rxn.Pipeline
@@ -79,11 +84,20 @@ example : (run demoCfg demo).map (fun x => x.2.map fun g => (g.op, g.e.key, g.e.
 for every key and every split, what the key's current owner has applied followed by what is still on the channel
 to it is exactly the read prefix of the split restricted to the key (in order, nothing missing, nothing twice),
 nobody else holds anything for the key; and every checkpoint that is published or being written is a consistent
-cut whose states are the folds of the handler over exactly the records below its cursors. -/
-theorem exactly_once_inv {σ : Type} (cfg : Cfg σ) (wf : cfg.WF) (as : List Act) (s : State σ) (obs : List (Given σ))
-    (h : run cfg as = some (s, obs)) :
+cut whose states are the folds of the handler over exactly the records below its cursors.
+
+FULL statement (not proved; false for the code as it is, see `redeploy_live_counterexample`):
+
+    (full) theorem exactly_once_inv {σ : Type} (cfg : Cfg σ) (wf : cfg.WF) (as : List Act) (s : State σ)
+        (obs : List (Given σ)) (h : run cfg as = some (s, obs)) :
+        Consistent cfg s ∧ (∀ c ∈ s.published, CkptOK cfg c) ∧ (∀ c ∈ s.writing, CkptOK cfg c)
+
+Excluded by `hl`: runs containing a `redeployLive` step, i.e. deployments whose assembly contains a node process
+that is still alive (finding D39, open). -/
+theorem exactly_once_inv_partial {σ : Type} (cfg : Cfg σ) (wf : cfg.WF) (as : List Act) (s : State σ)
+    (obs : List (Given σ)) (hl : ∀ a ∈ as, a.isLiveRedeploy = false) (h : run cfg as = some (s, obs)) :
     Consistent cfg s ∧ (∀ c ∈ s.published, CkptOK cfg c) ∧ (∀ c ∈ s.writing, CkptOK cfg c) := by
-  have hi := inv_run cfg wf as s obs h
+  have hi := inv_run cfg wf as s obs hl h
   exact ⟨⟨hi.main, hi.own⟩, fun c hc => hi.ck c (Or.inr hc), fun c hc => hi.ck c (Or.inl hc)⟩
 
 /-- the hypotheses are satisfiable with a published checkpoint and a non-empty log -/
@@ -98,12 +112,23 @@ example : ∃ s obs, run demoCfg demo = some (s, obs) ∧ s.published.length = 1
 
 /-- **No loss, no duplication.** In a reachable state with nothing in flight, record `i` of split `sp` occurs in the
 log of its key at the key's current owner exactly once if it has been read (`i < cursor sp`) and not at all
-otherwise; and whatever occurs in any log is a read record, of that key, at the key's owner. -/
-theorem no_loss_no_dup {σ : Type} (cfg : Cfg σ) (wf : cfg.WF) (as : List Act) (s : State σ) (obs : List (Given σ))
-    (h : run cfg as = some (s, obs)) (hq : Quiescent s) (sp i : Nat) :
+otherwise; and whatever occurs in any log is a read record, of that key, at the key's owner.
+
+FULL statement (not proved; false for the code as it is, see `redeploy_live_counterexample`):
+
+    (full) theorem no_loss_no_dup {σ : Type} (cfg : Cfg σ) (wf : cfg.WF) (as : List Act) (s : State σ)
+        (obs : List (Given σ)) (h : run cfg as = some (s, obs)) (hq : Quiescent s) (sp i : Nat) :
+        (s.log (cfg.route s.n (cfg.key sp i)) (cfg.key sp i)).count (sp, i) = (if i < s.cursor sp then 1 else 0) ∧
+        ∀ o k, (sp, i) ∈ s.log o k → o = cfg.route s.n k ∧ k = cfg.key sp i ∧ i < s.cursor sp
+
+Excluded by `hl`: runs containing a `redeployLive` step, i.e. deployments whose assembly contains a node process
+that is still alive (finding D39, open). -/
+theorem no_loss_no_dup_partial {σ : Type} (cfg : Cfg σ) (wf : cfg.WF) (as : List Act) (s : State σ)
+    (obs : List (Given σ)) (hl : ∀ a ∈ as, a.isLiveRedeploy = false) (h : run cfg as = some (s, obs))
+    (hq : Quiescent s) (sp i : Nat) :
     (s.log (cfg.route s.n (cfg.key sp i)) (cfg.key sp i)).count (sp, i) = (if i < s.cursor sp then 1 else 0) ∧
     ∀ o k, (sp, i) ∈ s.log o k → o = cfg.route s.n k ∧ k = cfg.key sp i ∧ i < s.cursor sp := by
-  have hi := inv_run cfg wf as s obs h
+  have hi := inv_run cfg wf as s obs hl h
   exact ⟨quiescent_count cfg s hi hq sp i, fun o k hm => quiescent_mem cfg s hi hq sp i o k hm⟩
 
 /-- `Quiescent` is reached non-trivially: at the end of `demo` (after a failure and a repartitioning restart)
@@ -119,15 +144,26 @@ example : ∃ s obs, run demoCfg demo = some (s, obs) ∧ Quiescent s ∧
   simp only [Option.map_some, Option.some.injEq, Prod.mk.injEq] at h2
   obtain ⟨hn, hc, hl, hchk⟩ := h2
   refine ⟨s, obs, h, ?_, ?_, hl⟩
-  · exact quiescent_of_check demoCfg demoCfg_wf s (inv_run demoCfg demoCfg_wf demo s obs h) (by omega) hchk
+  · exact quiescent_of_check demoCfg demoCfg_wf s (inv_run demoCfg demoCfg_wf demo s obs (by decide) h) (by omega) hchk
   · simpa using hc
 
 /-- **State = fold of the log.** In every reachable state every operator's state of every key is the fold of the
 handler over the key's log there (with the previous theorems: over exactly the key's records read so far, each
-once, per split in split order). -/
-theorem handler_state_eq {σ : Type} (cfg : Cfg σ) (wf : cfg.WF) (as : List Act) (s : State σ) (obs : List (Given σ))
-    (h : run cfg as = some (s, obs)) : ∀ o k, s.st o k = foldLog cfg k (s.log o k) :=
-  (inv_run cfg wf as s obs h).hst
+once, per split in split order).
+
+FULL statement (not proved: it is obtained here from the invariant, which a live redeploy breaks. This equation
+alone is not refuted by `redeploy_live_counterexample` — there the state *is* the fold of the log — but the log is
+no longer the key's records read so far, each once):
+
+    (full) theorem handler_state_eq {σ : Type} (cfg : Cfg σ) (wf : cfg.WF) (as : List Act) (s : State σ)
+        (obs : List (Given σ)) (h : run cfg as = some (s, obs)) : ∀ o k, s.st o k = foldLog cfg k (s.log o k)
+
+Excluded by `hl`: runs containing a `redeployLive` step, i.e. deployments whose assembly contains a node process
+that is still alive (finding D39, open). -/
+theorem handler_state_eq_partial {σ : Type} (cfg : Cfg σ) (wf : cfg.WF) (as : List Act) (s : State σ)
+    (obs : List (Given σ)) (hl : ∀ a ∈ as, a.isLiveRedeploy = false) (h : run cfg as = some (s, obs)) :
+    ∀ o k, s.st o k = foldLog cfg k (s.log o k) :=
+  (inv_run cfg wf as s obs hl h).hst
 
 example : (run demoCfg demo).map (fun x => (x.1.st 2 2, foldLog demoCfg 2 (x.1.log 2 2))) =
     some ([(1, 1), (0, 2), (2, 0)], [(1, 1), (0, 2), (2, 0)]) := rfl
@@ -135,14 +171,28 @@ example : (run demoCfg demo).map (fun x => (x.1.st 2 2, foldLog demoCfg 2 (x.1.l
 /-- **Every handler invocation sees the exactly-once state.** Whenever, in a reachable state `s`, operator `o`
 takes a record `e` from channel `r → o` (every prefix of a run is a run, so this is every handler invocation of
 every run), the handler is called with the fold over the records applied to the key so far, `o` is the key's
-owner, `e` is a genuine record of its split, and afterwards the key's log and state are extended by exactly `e`. -/
-theorem handler_invocation {σ : Type} (cfg : Cfg σ) (wf : cfg.WF) (as : List Act) (s : State σ) (obs : List (Given σ))
-    (h : run cfg as = some (s, obs)) (r o : Nat) (s' : State σ) (gs : List (Given σ))
+owner, `e` is a genuine record of its split, and afterwards the key's log and state are extended by exactly `e`.
+
+FULL statement (not proved; false for the code as it is: after a live redeploy onto a different worker count a
+stale in-flight record reaches an operator that is not the key's owner):
+
+    (full) theorem handler_invocation {σ : Type} (cfg : Cfg σ) (wf : cfg.WF) (as : List Act) (s : State σ)
+        (obs : List (Given σ)) (h : run cfg as = some (s, obs)) (r o : Nat) (s' : State σ) (gs : List (Given σ))
+        (hs : step cfg s (.deliver r o) = some (s', gs)) :
+        ∃ e, gs = [⟨o, e, foldLog cfg e.key (s.log o e.key)⟩] ∧ o = cfg.route s.n e.key ∧
+          e.key = cfg.key e.split e.idx ∧ s'.log o e.key = s.log o e.key ++ [(e.split, e.idx)] ∧
+          s'.st o e.key = cfg.h (foldLog cfg e.key (s.log o e.key)) e
+
+Excluded by `hl`: runs containing a `redeployLive` step, i.e. deployments whose assembly contains a node process
+that is still alive (finding D39, open). -/
+theorem handler_invocation_partial {σ : Type} (cfg : Cfg σ) (wf : cfg.WF) (as : List Act) (s : State σ)
+    (obs : List (Given σ)) (hl : ∀ a ∈ as, a.isLiveRedeploy = false) (h : run cfg as = some (s, obs))
+    (r o : Nat) (s' : State σ) (gs : List (Given σ))
     (hs : step cfg s (.deliver r o) = some (s', gs)) :
     ∃ e, gs = [⟨o, e, foldLog cfg e.key (s.log o e.key)⟩] ∧ o = cfg.route s.n e.key ∧
       e.key = cfg.key e.split e.idx ∧ s'.log o e.key = s.log o e.key ++ [(e.split, e.idx)] ∧
       s'.st o e.key = cfg.h (foldLog cfg e.key (s.log o e.key)) e :=
-  deliver_spec cfg s s' (inv_run cfg wf as s obs h) r o gs hs
+  deliver_spec cfg s s' (inv_run cfg wf as s obs hl h) r o gs hs
 
 /-- a delivery is enabled after a restart with restored, non-initial state: the last action of `demo` -/
 example : ∃ s obs s' gs, run demoCfg (demo.take 27) = some (s, obs) ∧
@@ -163,14 +213,28 @@ example : ∃ s obs s' gs, run demoCfg (demo.take 27) = some (s, obs) ∧
 there is a run consisting of one initial deployment on the same number of workers followed by actions none of
 which is a failure (`kill` / `restart`) at whose end the key's owner holds exactly the same log and the same state
 for the key: whatever failures, restarts and repartitionings happened, every key's state is a state of a
-failure-free execution over the same input. -/
-theorem failure_free_realizable {σ : Type} (cfg : Cfg σ) (wf : cfg.WF) (as : List Act) (s : State σ)
-    (obs : List (Given σ)) (h : run cfg as = some (s, obs)) (hn : 0 < s.n) (k : Nat) :
+failure-free execution over the same input. (The witness run contains no live redeploy either.)
+
+FULL statement (not proved; false for the code as it is, see `redeploy_live_counterexample`: no failure-free run
+applies a record twice):
+
+    (full) theorem failure_free_realizable {σ : Type} (cfg : Cfg σ) (wf : cfg.WF) (as : List Act) (s : State σ)
+        (obs : List (Given σ)) (h : run cfg as = some (s, obs)) (hn : 0 < s.n) (k : Nat) :
+        ∃ as' s' obs', run cfg as' = some (s', obs') ∧ as'.head? = some (Act.restart s.n false) ∧
+          (∀ a ∈ as'.tail, a.isFailure = false) ∧ s'.n = s.n ∧
+          s'.log (cfg.route s.n k) k = s.log (cfg.route s.n k) k ∧
+          s'.st (cfg.route s.n k) k = s.st (cfg.route s.n k) k
+
+Excluded by `hl`: runs containing a `redeployLive` step, i.e. deployments whose assembly contains a node process
+that is still alive (finding D39, open). -/
+theorem failure_free_realizable_partial {σ : Type} (cfg : Cfg σ) (wf : cfg.WF) (as : List Act) (s : State σ)
+    (obs : List (Given σ)) (hl : ∀ a ∈ as, a.isLiveRedeploy = false) (h : run cfg as = some (s, obs))
+    (hn : 0 < s.n) (k : Nat) :
     ∃ as' s' obs', run cfg as' = some (s', obs') ∧ as'.head? = some (Act.restart s.n false) ∧
-      (∀ a ∈ as'.tail, a.isFailure = false) ∧ s'.n = s.n ∧
+      (∀ a ∈ as'.tail, a.isFailure = false) ∧ (∀ a ∈ as', a.isLiveRedeploy = false) ∧ s'.n = s.n ∧
       s'.log (cfg.route s.n k) k = s.log (cfg.route s.n k) k ∧
       s'.st (cfg.route s.n k) k = s.st (cfg.route s.n k) k :=
-  failure_free_of_inv cfg wf s (inv_run cfg wf as s obs h) hn k
+  failure_free_of_inv cfg wf s (inv_run cfg wf as s obs hl h) hn k
 
 /-- the failure-free run for key 2 at the end of `demo` (3 workers, owner 2): per log entry, read the entry's
 split up to the entry, delivering each record at once -/
@@ -182,5 +246,62 @@ example : demoFF.tail.all (fun a => !a.isFailure) = true := rfl
 example : (run demoCfg demoFF).map (fun x => (x.1.n, x.1.log 2 2, x.1.st 2 2)) =
     (run demoCfg demo).map (fun x => (x.1.n, x.1.log 2 2, x.1.st 2 2)) := rfl
 example : (run demoCfg demo).map (fun x => (x.1.n, x.1.log 2 2)) = some (3, [(1, 1), (0, 2), (2, 0)]) := rfl
+
+/-! ## the excluded runs: redeploying a live node (finding D39) -/
+
+/-- one worker; record 0 of split 0 is read and still in flight when the job is redeployed onto the same, live,
+node process: the cursor goes back to 0 (no checkpoint yet), the channel is not discarded, the record is read
+again, and both copies are delivered -/
+def demoLive : List Act := [.restart 1 false, .read 0, .redeployLive 1, .read 0, .deliver 0 0, .deliver 0 0]
+
+/-- **Counterexample to the full statements (the code as it is, D39)**: of `exactly_once_inv` (not `Consistent`), of
+`no_loss_no_dup` (count 2 in a quiescent state) and hence of `failure_free_realizable` (the witness run would be
+a run without live redeploy, whose logs have no duplicates). A run with a single `redeployLive` step ends in a state with nothing in flight in which record `(0, 0)` — read once according to the cursor — has
+been applied **twice** to its key at the key's owner: the state is the fold over a duplicated record and the
+state is not `Consistent`. -/
+theorem redeploy_live_counterexample :
+    ∃ s obs, run demoCfg demoLive = some (s, obs) ∧ (demoLive.filter Act.isLiveRedeploy).length = 1 ∧
+      Quiescent s ∧ s.cursor 0 = 1 ∧
+      (s.log (demoCfg.route s.n (demoCfg.key 0 0)) (demoCfg.key 0 0)).count (0, 0) = 2 ∧
+      s.st 0 0 = [(0, 0), (0, 0)] ∧ ¬ Consistent demoCfg s := by
+  let s1 : State (List (Nat × Nat)) := restore demoCfg (init demoCfg) none 1 false
+  let s2 := readS demoCfg s1 0
+  let s3 : State (List (Nat × Nat)) := { restore demoCfg s2 none 1 false with queue := s2.queue }
+  let s4 := readS demoCfg s3 0
+  let s5 := delivS demoCfg s4 0 0 ⟨0, 0, 0⟩ [Item.ev ⟨0, 0, 0⟩]
+  let s6 := delivS demoCfg s5 0 0 ⟨0, 0, 0⟩ []
+  refine ⟨s6, [⟨0, ⟨0, 0, 0⟩, []⟩, ⟨0, ⟨0, 0, 0⟩, [(0, 0)]⟩], rfl, rfl, ?_, rfl, rfl, rfl, ?_⟩
+  · intro r o e he
+    by_cases hro : r = 0 ∧ o = 0
+    · obtain ⟨rfl, rfl⟩ := hro
+      have hq : s6.queue 0 0 = [] := rfl
+      rw [hq] at he
+      cases he
+    · have hq : s6.queue r o = [] := by
+        simp [s6, s5, s4, s3, s2, s1, delivS, readS, restore, demoCfg, hro]
+      rw [hq] at he
+      cases he
+  · intro hc
+    have h := hc.1 0 0
+    have h2 : (idxOf 0 (s6.log (demoCfg.route s6.n 0) 0) ++
+        projI 0 0 (s6.queue (demoCfg.assign s6.n 0) (demoCfg.route s6.n 0))).length = 2 := rfl
+    rw [h] at h2
+    exact absurd h2 (by decide)
+
+/-- the handler invocations of `demoLive`: record `(0, 0)` is handed to the handler twice, the second time with a
+state that already contains it -/
+example : (run demoCfg demoLive).map (fun x => x.2.map fun g => (g.op, g.e.key, g.e.split, g.e.idx, g.state)) =
+    some [(0, 0, 0, 0, []), (0, 0, 0, 0, [(0, 0)])] := rfl
+
+/-- the full `handler_invocation` fails as well: after a live redeploy from 2 workers onto 1 the stale record of
+key 1 is handed to the handler of operator 1, which does not exist in the new deployment (the owner is
+`route 1 1 = 0`) -/
+example : (run demoCfg [.restart 2 false, .read 1, .redeployLive 1, .deliver 1 1]).map
+      (fun x => (x.1.n, demoCfg.route x.1.n 1, x.2.map fun g => (g.op, g.e.key, g.e.split, g.e.idx))) =
+    some (1, 0, [(1, 1, 1, 0)]) := rfl
+
+/-- with a deployment onto fresh processes instead (`restart`), the same schedule is not even enabled: the stale
+record is gone, the second delivery finds an empty channel -/
+example : run demoCfg [.restart 1 false, .read 0, .restart 1 false, .read 0, .deliver 0 0, .deliver 0 0] = none := rfl
 
 end Rxn.C01
